@@ -213,3 +213,41 @@ pub fn cuts_fixed(size: usize, n: usize) -> Vec<usize> {
     }
     (1..n).filter(|i| i % size == 0).collect()
 }
+
+// ---------------------------------------------------------------------------------------------
+// async sink that accepts at most `max` bytes per write and returns Pending by a schedule
+
+pub struct PartialSink {
+    pub out: Vec<u8>,
+    pub max: usize,
+    /// Pending (after waking) before write k iff bit (k % 64) of the mask is set
+    pub pend_mask: u64,
+    pub calls: usize,
+    pending_given: bool,
+}
+impl PartialSink {
+    pub fn new(max: usize, pend_mask: u64) -> Self {
+        PartialSink { out: vec![], max: max.max(1), pend_mask, calls: 0, pending_given: false }
+    }
+}
+impl tokio::io::AsyncWrite for PartialSink {
+    fn poll_write(self: Pin<&mut Self>, cx: &mut Context<'_>, buf: &[u8]) -> Poll<io::Result<usize>> {
+        let this = self.get_mut();
+        if this.pend_mask >> (this.calls % 64) & 1 == 1 && !this.pending_given {
+            this.pending_given = true;
+            cx.waker().wake_by_ref();
+            return Poll::Pending;
+        }
+        this.pending_given = false;
+        this.calls += 1;
+        let n = buf.len().min(this.max);
+        this.out.extend_from_slice(&buf[..n]);
+        Poll::Ready(Ok(n))
+    }
+    fn poll_flush(self: Pin<&mut Self>, _cx: &mut Context<'_>) -> Poll<io::Result<()>> {
+        Poll::Ready(Ok(()))
+    }
+    fn poll_shutdown(self: Pin<&mut Self>, _cx: &mut Context<'_>) -> Poll<io::Result<()>> {
+        Poll::Ready(Ok(()))
+    }
+}
